@@ -128,11 +128,13 @@ PROPS = {
         assumptions=_HUB_ASSUME + ["flock(2) mutual exclusion and release on process death, rename(2) atomic replace, O_TRUNC keeping the inode are trusted kernel semantics",
                                    "the interleaved transition system contains Put and Delete (`refinement`); Get is not a step kind — `C10.fetch_reads_one_complete_version` shows a published inode is never written again, so a Get is an atomic read at its open; List is not claimed atomic",
                                    "staging names are per process (WF.tmp_inj) — true of the repaired code (D6), false of the pinned code"],
-        trusted_base=_HUB_TB,
+        trusted_base=_HUB_TB + ["tools/gate/gate.c (LD_PRELOAD interposer on open/open64/write/rename/unlink/flock/close) and tools/bb_gate.py (controller): decide the schedule, do not change what a call does"],
         level_text="Kernel-checked forward simulation: from every reachable state of N interleaved server processes (any schedule, any kills) each step is a stutter or exactly one atomic CAS-put or CAS-delete of the stepping process's request "
                    "(linearisation point = the rename / unlink under the lock); the compared hash is the CURRENT one for Puts and Deletes (LInv, preserved by all 15 step kinds), mutual exclusion, commit-only-on-match, delete-only-on-match, loser preserved at the conflict-copy name. "
-                   "Tie (partial): 2–3 real server processes with client-paced interleavings at content-piece granularity; replies + final tree must be linearizable w.r.t. the sequential Lean hub model (every real-time-compatible order is run through the model).",
-        level_note="Partial: proof of the interleaved Put/Delete system + client-paced schedules; kernel scheduling inside a server between two syscalls is not controlled (no LD_PRELOAD gate was built).",
+                   "Tie (partial): (1) 2–3 real server processes with client-paced interleavings at content-piece granularity; (2) SYSCALL-LEVEL schedules: the servers run under an LD_PRELOAD gate (tools/gate/gate.c) that makes every file-system call on the tree "
+                   "(create/truncate of the staging file, write, flock, the destination read, rename, unlink) a scheduling point, one process at a time — the step granularity of the Lean transition system; schedules with ≤ 2 preemptions sampled systematically + random ones. "
+                   "In both, replies + final tree must be linearizable w.r.t. the sequential Lean hub model (every real-time-compatible order is run through the model).",
+        level_note="Partial: proof of the interleaved Put/Delete system + controlled schedules of real processes (sampled, not exhaustive); preemption inside one system call and the kernel's own flock/rename atomicity are trusted.",
         technique="Lean 4 proof (inductive invariants + refinement to an atomic CAS map) + schedule-controlled linearizability check against the model",
     ),
     "C10": dict(
@@ -141,8 +143,9 @@ PROPS = {
         trusted_base=_HUB_TB,
         level_text="Kernel-checked inductive invariant over the interleaved system incl. kill transitions: in EVERY reachable state every client-visible path holds initial content or the complete bytes of one Put whose streamed hash equalled its declared hash; "
                    "a wrong-hash Put never reaches the commit decision; staging inodes in use are private and unpublished; `fetch_reads_one_complete_version`: the inode behind a visible path is never written again, so a fetch from one handle reads one complete verified version whatever happens meanwhile. (Length mismatch: sequential model + D14 repair.) "
-                   "Tie (partial): the real tree is read after every scheduling step of paced multi-server schedules, with servers SIGKILLed at random steps and Puts with wrong hashes.",
-        level_note="Partial: proof of the model + paced schedules and kills on real processes.",
+                   "Tie (partial): the real tree is read after every scheduling step of (1) client-paced multi-server schedules and (2) syscall-level schedules under the LD_PRELOAD gate (every file-system call on the tree is a scheduling point; the pinned code's torn file shows up deterministically there), "
+                   "with servers SIGKILLed at random steps and Puts with wrong hashes.",
+        level_note="Partial: proof of the model + controlled schedules (sampled) and kills on real processes; a kill inside one write(2) is represented by kills between the chunk writes.",
         technique="Lean 4 proof (inductive invariant over all interleavings and kills) + per-step observation of real multi-process schedules",
     ),
     "C11": dict(
